@@ -222,15 +222,14 @@ impl Parameters {
         log::trace!("sorting and deduplicating peptides");
 
         let init_size = target_decoys.len();
-        // This is equivalent to a stable sort
-        target_decoys.par_sort_unstable_by(|a, b| {
-            a.monoisotopic
-                .total_cmp(&b.monoisotopic)
-                .then_with(|| a.initial_sort(b))
-        });
+        // Bring identical peptide forms (sequence, modifications, termini) together first. The mass
+        // is deliberately not part of this key: peptides merged from different builds (fasta
+        // chunks) can carry masses that differ in the last bit of the f32 sum - a generated decoy
+        // inherits the mass of its target, whereas the same sequence digested as a target sums its
+        // residues in the opposite order - and must still be recognised as one peptide
+        target_decoys.par_sort_unstable_by(|a, b| a.initial_sort(b));
         target_decoys.dedup_by(|remove, keep| {
-            if remove.monoisotopic == keep.monoisotopic
-                && remove.sequence == keep.sequence
+            if remove.sequence == keep.sequence
                 && remove.modifications == keep.modifications
                 && remove.nterm == keep.nterm
                 && remove.cterm == keep.cterm
@@ -245,10 +244,19 @@ impl Parameters {
                 keep.semi_enzymatic &= remove.semi_enzymatic;
                 keep.missed_cleavages = keep.missed_cleavages.min(remove.missed_cleavages);
                 keep.position = keep.position.min(remove.position);
+                keep.monoisotopic = keep.monoisotopic.min(remove.monoisotopic);
                 true
             } else {
                 false
             }
+        });
+
+        // The database is searched by mass: order the (now unique) forms by mass. Ties are broken by
+        // the form itself, so the result does not depend on what the unstable sort does
+        target_decoys.par_sort_unstable_by(|a, b| {
+            a.monoisotopic
+                .total_cmp(&b.monoisotopic)
+                .then_with(|| a.initial_sort(b))
         });
 
         target_decoys
